@@ -30,16 +30,22 @@
 (*   RefuseOnlyWhen  ValueError on leaving only for an empty list / a      *)
 (*                 trailing comment; then nothing is written               *)
 (*                                                                         *)
+(* Configurations: MC_ListViewImpl_quick.cfg (<= 3 words / 7 tokens / 1    *)
+(* comment line x 2 calls), MC_ListViewImpl.cfg (<= 4 words / 9 tokens / 2 *)
+(* comment lines x 2 calls; the final newline counts as a token); the      *)
+(* harness generates the emission configurations (Emit = TRUE, a slice of  *)
+(* the layouts chosen by the seed).                                        *)
+(*                                                                         *)
 (* Removing the ONLY value: the code clears the token list and refuses to  *)
 (* write on leaving (ValueError "Field must have content"), the document   *)
 (* stays as it was -- consistent with "the document is still syntactically *)
 (* valid", so it is modelled as the code does (CRes = "ValueError").       *)
 (*                                                                         *)
 (* Negative controls (constants that switch in a wrong design; each makes  *)
-(* TLC report the named invariant, see MC_ListViewImpl_neg*.cfg):          *)
+(* TLC report the named invariant: MC_ListViewImpl_neg_remove / _leak /    *)
+(* _cont / _cmtnl.cfg, run by the thorough tier):                          *)
 (*   RemoveNodeOnly  remove() deletes just the value token  -> StillValid  *)
-(*                   (a blank continuation line is left behind) and        *)
-(*                   EditResult (two comma items merge)                    *)
+(*                   (a blank continuation line is left behind)            *)
 (*   LeakComments    a value is rendered with its comment lines -> Refines *)
 (*                   (the defect repaired by /repo 04a941e)                *)
 (*   NoContinuation  append after a newline/comment forgets the            *)
@@ -55,7 +61,8 @@ CONSTANTS Modes,            \* subset of {"sp", "cm"}
           MaxEdits,         \* calls between Open and leaving the with-block
           Extras,           \* TRUE: also append_separator / append_newline / append_comment / reformat_when_finished
           Emit,             \* TRUE: Close is an action and prints one CASE line per behaviour
-          SliceK, SliceR,   \* only layouts with LayHash % SliceK = SliceR are opened (1, 0: all)
+          SliceK, SliceR,   \* only layouts with LayHash % SliceK = SliceR are opened (1, 0: all) ...
+          InnerAlways,      \* ... plus, with one call, every layout that has a comment line INSIDE a value
           RemoveNodeOnly, LeakComments, NoContinuation, DropNlBeforeCmt   \* negative controls
 
 VARIABLES mode, lay, phase, toks, contc, changed, reform, steps, out, cres, hist
@@ -186,8 +193,12 @@ Grow(t) == /\ phase = "grow"
            /\ lay' = Append(lay, t)
            /\ UNCHANGED <<avars, mode, phase, toks, contc, changed, reform, steps, out, cres, hist>>
 
+InSlice(l)     == LayHash(l) % SliceK = SliceR
+HasInner(m, l) == \E i \in 1..Len(l) : l[i] = CM /\ \E e \in {Opened(m, l)[k] : k \in 1..Len(Opened(m, l))} : IsVal(e) /\ CM \in {e[k] : k \in 1..Len(e)}
+EditLimit      == IF InSlice(lay) THEN MaxEdits ELSE 1
+
 Open == /\ phase = "grow" /\ Complete(lay)
-        /\ LayHash(lay) % SliceK = SliceR
+        /\ InSlice(lay) \/ (InnerAlways /\ HasInner(mode, lay))
         /\ phase' = "open"
         /\ toks' = Opened(mode, lay)
         /\ vals' = Split(mode, lay) /\ tail' = "none" /\ res' = "ok"
@@ -196,7 +207,7 @@ Open == /\ phase = "grow" /\ Complete(lay)
 St       == [ts |-> toks, cc |-> contc]
 SetSt(s) == toks' = s.ts /\ contc' = s.cc
 Log(op, v, w, i) == IF Emit THEN Append(hist, [op |-> op, v |-> v, w |-> w, i |-> i, r |-> res', vals |-> vals']) ELSE hist
-Step(op, v, w, i) == /\ phase = "open" /\ steps < MaxEdits
+Step(op, v, w, i) == /\ phase = "open" /\ steps < EditLimit
                      /\ steps' = steps + 1 /\ hist' = Log(op, v, w, i)
                      /\ UNCHANGED <<mode, lay, phase, out, cres>>
 
@@ -236,12 +247,12 @@ Close == /\ Emit /\ phase = "open"
 AppendVals == {<<NEWW>>} \cup (IF Dups THEN {<<1>>} ELSE {})
 Targets    == {vals[i] : i \in 1..Len(vals)} \cup {<<ABSENT>>}
 
-Next == \/ \E t \in {SP, NL, CT, CM, SEP} \cup NextWords(lay) : Grow(t)
-        \/ Open
-        \/ \E v \in AppendVals : Append1(v)
-        \/ \E v \in Targets : Remove1(v) \/ Replace1(v, <<NEWW>>)
-        \/ \E i \in 1..Len(vals) : RefSet1(i, <<NEWW>>) \/ RefRemove1(i)
-        \/ (Extras /\ (AppendSep1(TRUE) \/ AppendSep1(FALSE) \/ AppendNl1 \/ AppendCmt1 \/ Reformat1))
+Next == \/ (phase = "grow" /\ ((\E t \in {SP, NL, CT, CM, SEP} \cup NextWords(lay) : Grow(t)) \/ Open))
+        \/ (phase = "open" /\ steps < EditLimit /\
+              \/ \E v \in AppendVals : Append1(v)
+              \/ \E v \in Targets : Remove1(v) \/ Replace1(v, <<NEWW>>)
+              \/ \E i \in 1..Len(vals) : RefSet1(i, <<NEWW>>) \/ RefRemove1(i)
+              \/ (Extras /\ (AppendSep1(TRUE) \/ AppendSep1(FALSE) \/ AppendNl1 \/ AppendCmt1 \/ Reformat1)))
         \/ Close
 Spec == Init /\ [][Next]_vars
 
